@@ -176,6 +176,69 @@ namespace NS1 { entity U; action a in [NS2::Action::"c"] appliesTo { principal: 
     ctx.extra['typeof_correspondence'] = dict(cases=len(tcases), accepted=okc, unmodelled=unk)
     ctx.oblige('correspondence: typeOfExpr (verdict and inferred type, one request environment, both modes) = Impl/TypeCheck.typeof on %d expressions (%d accepted, %d outside the model)'
                % (len(tcases), okc, unk), 'correspondence', tm == 0)
+    # correspondence: Validator.Policy (scopes, action application, request environments, conditions) = Impl/ValidatePolicy.validate_policy
+    vtexts = sorted({c.split(' ')[3] for c in cases})
+    vinfo = lib.run_go(['(case i%d schemainfo %s)' % (i, t) for i, t in enumerate(vtexts)], 'schemainfo', ctx.workdir)
+    vinfo_of = {t: vinfo.get('i%d' % i, '(missing)') for i, t in enumerate(vtexts)}
+    vcases = []
+    for c in cases:
+        parts = c.split(' ', 5)            # (case id validate text mode rest
+        text, mode = parts[3], parts[4]
+        inf = vinfo_of[text]
+        if not inf.startswith('(info '):
+            continue
+        # the policy is the first S-expression of the rest
+        rest = parts[5]
+        depth = 0
+        for k, ch in enumerate(rest):
+            if ch == '(':
+                depth += 1
+            elif ch == ')':
+                depth -= 1
+                if depth == 0:
+                    break
+        vcases.append('(case w%s vverdict %s %s %s %s)' % (parts[1], text, inf, mode, rest[:k + 1]))
+    # scope forms the random policies do not use: ==, in, is .. in on principal / resource, action in / in [..] incl. unknown names
+    fixed3 = '''entity Group; entity Team in [Group]; entity User in [Team] { age?: Long } tags String; entity Color enum ["red"];
+action grp; action top; action view in [grp] appliesTo { principal: [User], resource: [User, Group], context: { flag: Bool } };
+action edit in [view, top] appliesTo { principal: [Group], resource: [Group], context: { flag: Bool, n: Long } };
+action noapply in [grp];
+'''
+    inf3 = lib.run_go(['(case i0 schemainfo %s)' % S(fixed3)], 'schemainfo', ctx.workdir).get('i0', '(missing)')
+    E = gen.vent
+    pscopes = [['all'], ['eq', E('User', 'a')], ['eq', E('Nope', 'x')], ['eq', E('Action', 'view')], ['in', E('Group', 'g')], ['in', E('User', 'a')], ['in', E('Team', 't')],
+               ['in', E('Nope', 'x')], ['in', E('Color', 'red')], ['is', S('User')], ['is', S('Group')], ['is', S('Nope')], ['is', S('Color')],
+               ['isin', S('User'), E('Group', 'g')], ['isin', S('Group'), E('User', 'a')], ['isin', S('Nope'), E('Group', 'g')], ['isin', S('User'), E('Nope', 'g')],
+               ['isin', S('Group'), E('Group', 'g')]]
+    ascopes = [['all'], ['eq', E('Action', 'view')], ['eq', E('Action', 'nope')], ['eq', E('Action', 'noapply')], ['eq', E('Action', 'grp')], ['in', E('Action', 'view')],
+               ['in', E('Action', 'grp')], ['in', E('Action', 'top')], ['in', E('Action', 'nope')], ['inset'], ['inset', E('Action', 'grp')], ['inset', E('Action', 'view'), E('Action', 'nope')],
+               ['inset', E('Action', 'top'), E('Action', 'noapply')], ['inset', E('User', 'a')]]
+    cnds = [['conds'], ['conds', ['when', lit(gen.vbool(True))]], ['conds', ['when', ['eq', ['add', lit(gen.vlong(1)), lit(gen.vstr('x'))], lit(gen.vlong(2))]]],
+            ['conds', ['unless', ['access', ['var', 'context'], S('flag')]]], ['conds', ['when', ['gt', ['access', ['var', 'context'], S('n')], lit(gen.vlong(0))]]],
+            ['conds', ['when', ['gt', ['access', ['var', 'principal'], S('age')], lit(gen.vlong(0))]]], ['conds', ['when', lit(gen.vlong(1))]],
+            ['conds', ['when', ['and', ['has', ['var', 'principal'], S('age')], ['gt', ['access', ['var', 'principal'], S('age')], lit(gen.vlong(0))]]], ['when', ['in', ['var', 'action'], lit(E('Action', 'grp'))]]]]
+    wi = 0
+    if inf3.startswith('(info '):
+        combos = [(ps_, as_, rs_, cn) for ps_ in pscopes for as_ in ascopes for rs_ in pscopes for cn in cnds]
+        for (ps_, as_, rs_, cn) in (r.sample(combos, 1500) if quick else combos):
+            for mode in ('strict', 'permissive'):
+                wi += 1
+                pol = ['policy', S('p'), r.choice(['permit', 'forbid']), ps_, as_, rs_, cn, ['annots']]
+                vcases.append('(case ws%d vverdict %s %s %s %s)' % (wi, S(fixed3), inf3, mode, sx.dump(pol)))
+    go_v = lib.run_go(vcases, 'vverdict', ctx.workdir, timeout_ms=30000)
+    mo_v = lib.run_model(vcases, 'vverdict', ctx.workdir)
+    vm = vacc = 0
+    for c in vcases:
+        cid = lib.case_id(c)
+        g_, m_ = go_v.get(cid, '(missing)'), mo_v.get(cid, '(missing)')
+        vacc += g_ == '(accept)'
+        if g_ != m_:
+            vm += 1
+            if vm <= 6:
+                ctx.violation('Validator.Policy: Go and the Coq model (Impl/ValidatePolicy.v) disagree: go=%s model=%s policy=%s' % (g_, m_, c.split(' ')[-1][:10] and c[-600:]),
+                              dict(kind='case', case=c, go=g_, model=m_))
+    ctx.extra['vverdict_correspondence'] = dict(cases=len(vcases), accepted=vacc)
+    ctx.oblige('correspondence: Validator.Policy verdict = ValidatePolicy.validate_policy on %d policies (%d accepted)' % (len(vcases), vacc), 'correspondence', vm == 0)
     go = lib.run_go(cases, 'validate', ctx.workdir, timeout_ms=30000)
     bad = 0
     accepted = rejected = conforming = 0
